@@ -311,6 +311,10 @@ def float_last_bit(a, b):
 PINNED_EQ = [("TT", "GPS", 4853951976994573), ("GPS", "TT", 4661881960568707)]
 
 
+# the input of the kernel-checked counter-witness Witness/C03.lean (label_day_changes_instant), replayed on the real Date
+PINNED_EOP = [("TAI", "UT1", 4932144010000000)]
+
+
 def check_pair(out, rng, sa, sb, us):
     a = mkdate(us, sa)
     b = a.change_scale(sb)
@@ -368,10 +372,10 @@ def expected_offset(a, sa, sb):
     return rel[sb] - rel[sa], tol
 
 
-def check_arith(out, rng, scale, us):
+def check_arith(out, rng, scale, us, ts=None):
     from beyond.dates import timedelta
     d = mkdate(us, scale)
-    t1, t2 = gen_td(rng), gen_td(rng)
+    t1, t2 = ts if ts is not None else (gen_td(rng), gen_td(rng))
     e = d + timedelta(microseconds=t1)
     inp = {"scale": scale, "clock_us": us, "t1_us": t1, "t2_us": t2}
     out.count(key=("arith", scale, us, t1), kind="arith", scale=scale, sign=(t1 > 0) - (t1 < 0))
@@ -402,10 +406,11 @@ def check_arith(out, rng, scale, us):
             out.fail("add-label", "d+t changes the scale", inp, observed=e.scale.name)
 
 
-def check_order(out, rng, sa, sb, us):
+def check_order(out, rng, sa, sb, us, delta=None):
     from beyond.dates import timedelta
     a = mkdate(us, sa)
-    delta = rng.choice([0, 0, 1, -1, 2, -2, 10**6, -10**6, rng.randint(-10**9, 10**9)])
+    if delta is None:
+        delta = rng.choice([0, 0, 1, -1, 2, -2, 10**6, -10**6, rng.randint(-10**9, 10**9)])
     if in_leap_window(sa, us + delta):
         return
     b0 = a + timedelta(microseconds=delta)
@@ -592,20 +597,20 @@ def oracle(ctx, widened):
     out = Outcome()
     rng = ctx.rng
     big = widened or ctx.thorough
-    n_pair = 60 if not big else 600
+    n_pair = 300 if not big else 3000
     for sa in SCALES:
         for sb in SCALES:
             for _ in range(n_pair):
                 check_pair(out, rng, sa, sb, gen_label(rng, sa))
-    for sa, sb, us in PINNED_EQ:
+    for sa, sb, us in PINNED_EQ + PINNED_EOP:
         check_pair(out, rng, sa, sb, us)
     for scale in SCALES:
-        for _ in range(300 if not big else 3000):
+        for _ in range(1200 if not big else 12000):
             check_arith(out, rng, scale, gen_label(rng, scale))
-    for _ in range(1500 if not big else 15000):
+    for _ in range(6000 if not big else 60000):
         sa, sb = rng.choice(SCALES), rng.choice(SCALES)
         check_order(out, rng, sa, sb, gen_label(rng, sa))
-    for _ in range(700 if not big else 7000):
+    for _ in range(2500 if not big else 25000):
         scale = rng.choice(UNIFORM)
         check_range(out, rng, scale, gen_label(rng, scale))
     check_policy(out, rng)
@@ -626,6 +631,14 @@ def replay(f):
         check_pair(out, rng, i["scale"], i["to"], i["clock_us"])
     elif "step_us" in i:
         check_range(out, rng, i["scale"], i["clock_us"], replay=(i["step_us"], i["dur_us"], i["inclusive"], i["stop_as_timedelta"]))
+    elif "t1_us" in i:
+        check_arith(out, rng, i["scale"], i["clock_us"], ts=(i["t1_us"], i["t2_us"]))
+    elif "delta_us" in i:
+        check_order(out, rng, i["scale_a"], i["scale_b"], i["clock_us"], delta=i["delta_us"])
+    elif "policy" in i:
+        check_policy(out, rng)
+    elif "day" in i:
+        check_tables(out, [i["day"]])
     return out
 
 
@@ -786,7 +799,7 @@ def correspondence(ctx):
     rng = ctx.rng
     _, _, first, last = tables()
     cases = []     # (line, thunk giving the real reply, exact?, kind)
-    N = ctx.n(1, 8)
+    N = ctx.n(4, 40)
 
     def nonuni(*sc):
         return bool(set(sc) & {"UT1", "TDB"})
